@@ -130,6 +130,10 @@ Ltac sym_tie Fth Hasym O T A :=
   intros;
   repeat match goal with x := _ |- _ => subst x end;
   sym_unfold;
+  (* values of toNat / toN on the constants that stand for concretely needed inputs *)
+  try (progress (repeat match goal with
+                        | H : ?f (ofQ O ?q) = ?v |- context [?f (ofQ O ?q)] => rewrite H
+                        end); sym_unfold);
   sym_asym Hasym O;
   repeat (progress (repeat sym_cond Fth O T A; cbv beta iota));
   first [ reflexivity | sym_split; sym_eq Fth O T ].
